@@ -46,7 +46,7 @@ class ScopeInfo:
         scls = short(cls)
         if cls in LOCK_CLASSES or scls in LOCK_CLASSES:
             return 'lock'
-        if scls in GUARD_CLASSES:
+        if scls in GUARD_CLASSES or scls in fn.tu.counter_guard_classes():
             return 'guard'
         return None
 
